@@ -49,10 +49,25 @@ def events(darsia, rng, stacks, degrees, quick):
     ev = []
     forms = ["pixels", "2d", "3d"]
     # clip
-    for i in range(6 if quick else 40):
+    for i in range(12 if quick else 60):
         lo, hi = rng.randint(-2, 3), rng.choice([NONE, rng.randint(3, 8)])
         x = signal(rng, rng.choice(forms))
         m = build(darsia, ["clip", lo, hi])
+        if i % 2 == 1:
+            # the bounds are replaced after construction (update / parameter vector), zero included: the model clips to the NEW
+            # bounds.  An upper bound can only be replaced by a number (None = keep).
+            new_lo = rng.choice([0, 0, -1, 2])
+            new_hi = rng.choice([0, 3, 7]) if new_lo <= 0 else rng.choice([3, 7])
+            how = rng.choice(["update", "vector", "lower-only"])
+            if how == "update":
+                m.update(min_value=float(new_lo), max_value=float(new_hi))
+                lo, hi = new_lo, new_hi
+            elif how == "vector":
+                m.update_model_parameters(np.array([float(new_lo), float(new_hi)]))
+                lo, hi = new_lo, new_hi
+            elif hi == NONE or new_lo <= hi:
+                m.update(min_value=float(new_lo))
+                lo = new_lo
         if rng.random() < 0.4:
             img = darsia.Image(x.reshape(x.shape[0], -1) if x.ndim != 2 else x, space_dim=2, scalar=True)
             r1 = m(img)
